@@ -2,37 +2,56 @@
   `stun …` sub-driver: line protocol for the STUN message layer model (Nice.Stun).
   The C side is harness/stun_drv.c; both print exactly one line per op.
 
-  Byte strings are lowercase hex, `-` = empty.  Numbers are decimal unless noted.
+  Byte strings are lowercase hex, `-` = empty, `null` = NULL pointer where allowed.  Numbers are
+  decimal unless noted.  <S> = stun_message_validate_buffer_length verdict: invalid | incomplete | <n>.
 
-    stun cfg <compat 0-3 | none> <flags hex>
-         -> ok                      agent the following messages point to (`none`: msg->agent = NULL)
-    stun init <cap> <class> <method> <txid hex(16 bytes)>
-         -> ret <0|1> len <n> buf <hex>      fresh <cap>-byte buffer filled with 0xaa, stun_message_init
+  agent / configuration
+    stun cfg <compat 0-3 | none> <flags hex>                     -> ok
+         stun_agent_init with STUN_ALL_KNOWN_ATTRIBUTES (`none`: messages have msg->agent = NULL)
+    stun agent <compat> <flags hex> <all|msoc|-|hex,hex,..> <sw hex|nosw>   -> ok
+         stun_agent_init with that known-attribute list (+ stun_agent_set_software)
+  builder  (BUILD = `ret <r> len <stun_message_length|-> vl <S of the first len bytes> buf <whole cap-byte buffer>`)
+    stun init <cap> <class> <method> <txid 16 bytes>             -> BUILD     (buffer pre-filled with 0xaa)
     stun app <type hex4> bytes <hex> | flag | u32 <n> | u64 <n> | str <hex> | err <code> | sw <hex|null>
-                       | addr <fam> <port> <ip hex> <addrlen> | xaddr <fam> <port> <ip hex> <addrlen>
-                       | xaddrf <fam> <port> <ip hex> <addrlen> <cookie>
-         -> ret <StunMessageReturn> len <n> vl <r> buf <hex>   (fam: 4 | 6 | other number; vl = the
-            library's own stun_message_validate_buffer_length on the first <len> bytes)
-    stun raw <type hex4> <length>
-         -> ret <0 = NULL | value offset> len <n> buf <hex>  bare stun_message_append
-    stun len <pkt hex> split <n1,n2,..> pad <0|1>
-         -> fast <r> fastnt <r> full <r>     r = invalid | incomplete | <n>;  fastnt = the
-            NULL-terminated (n_buffers = -1) calling convention; full = contiguous validator
-    stun find <pkt hex> <type hex4>                              -> notvalid | none | <value offset> <alen>
-    stun get32|get64|getflag <pkt hex> <type hex4>               -> notvalid | ret <r> [val <n>]
-    stun geterr <pkt hex>                                        -> notvalid | ret <r> [val <code>]
-    stun getstr <pkt hex> <type hex4> <buflen>                   -> notvalid | ret <r> [val <hex>]
-    stun getaddr|getxaddr <pkt hex> <type hex4> <addrlen>        -> notvalid | ret <r> alen <n> [addr <fam> <port> <ip>]
-    stun getxaddrf <pkt hex> <type hex4> <addrlen> <cookie>      -> same
-    stun mfind|m32|m64|mflag|merr|mstr|maddr|mxaddr|mxaddrf …    the same accessors without <pkt>: they run
-                                                                 on the message being built (buffer_len = cap)
-    stun hdr <pkt hex>                                           -> class <n> method <n> cookie <0|1> id <hex> len <n>
-    stun crc <hex> <typo 0|1>                                    -> <crc32 decimal>
-    stun fpr <pkt hex> <len> <typo 0|1>                          -> <fingerprint value decimal>
-  `len <n>` after a builder op is stun_message_length() (16 bit).  The lookup ops (`find`, `get*`)
-  first run stun_message_validate_buffer_length on the packet with the padding mode of the current
-  cfg and answer `notvalid` unless it returns the packet's size (the accessors' precondition).
-  A model fault prints `fault oob|assert|ub` (the real code has then no defined behaviour).
+           | addr <fam> <port> <ip hex> <addrlen> | xaddr … | xaddrf … <cookie>      -> BUILD   (fam 4 | 6 | other)
+    stun raw <type hex4> <length>                                -> BUILD     bare stun_message_append, ret = value offset | 0
+    stun ireq|iind <cap> <method> <txid>                         -> BUILD INFO     stun_agent_init_request / _indication
+    stun iresp <cap> | ierr <cap> <code> | unk <cap>             -> BUILD INFO [SLOTS]  init_response / init_error /
+         build_unknown_attributes_error from the last validated packet (the "request")
+    stun fin <key hex|null>                                      -> BUILD INFO SLOTS    stun_agent_finish_message
+         INFO = `key <hex|null> lt <0 | 1 ltkey>` (msg->key, long_term_valid/key);
+         SLOTS = `slots <i:method:id:key:lt,…|->` (the agent's valid saved transaction ids)
+  usages
+    stun ucc <cap> <txid> <user|null> <pass|null> <canduse> <controlling> <prio> <tie> <candid|null> <icecompat>
+                                                                 -> BUILD INFO SLOTS    stun_usage_ice_conncheck_create
+    stun ubind|ukeep <cap> <txid>                                -> BUILD INFO SLOTS    stun_usage_bind_create / _keepalive
+    stun ureply <cap> <fam> <port> <ip> <srclen> <control> <tie> <icecompat>
+         -> ret <StunUsageIceReturn> plen <n> control <0|1> buf <hex> INFO SLOTS       …_conncheck_create_reply
+    stun uccproc <addrlen ≥ 28> <icecompat>                      -> ret <r> alen <n> [addr <fam> <port> <ip>]
+    stun ubindproc <addrlen ≥ 28> <altlen|null>                  -> ret <r> alen <n> [addr …] altlen <n|null> [alt …]
+         (both on the last validated packet)
+  received packets
+    stun len <pkt> split <n1,n2,..> pad <0|1>                    -> fast <S> fastnt <S> full <S>
+         vectored pre-check (n_buffers ≥ 0 and the NULL-terminated convention) and the contiguous validator;
+         zero-length buffers allowed
+    stun val <pkt> <nocb | none | user=key;user=key…>            -> status <StunValidationStatus> INFO legacy <0|1> SLOTS
+         stun_agent_validate with stun_agent_default_validater over that table (`nocb`: NULL callback)
+    stun valm <table>                                            -> same + ` pkt <hex>`: validates the first len bytes of
+         the message being built, as a received packet, at the same agent
+    stun forget <txid>                                           -> <0|1> SLOTS
+    stun find <pkt> <type hex4>                                  -> notvalid | none | <value offset> <alen>
+    stun get32|get64|getflag <pkt> <type> | geterr <pkt> | getstr <pkt> <type> <buflen>
+           | getaddr|getxaddr <pkt> <type> <addrlen> | getxaddrf <pkt> <type> <addrlen> <cookie>
+                                                                 -> notvalid | ret <StunMessageReturn> [val …|alen … addr …]
+    stun mfind|m32|m64|mflag|merr|mstr|maddr|mxaddr|mxaddrf …    the same accessors on the message being built
+    stun hdr <pkt>                                               -> class <n> method <n> cookie <0|1> id <hex> len <n>
+  primitives (the model's own SHA-1 / MD5 / HMAC / CRC against GnuTLS and the library)
+    stun crc <hex> <typo> | fpr <pkt> <len> <typo> | sha1 <hex> | md5 <hex> | hmac <key> <hex>
+    stun creds <realm> <user> <pass> | mac <pkt> <len> <msglen> <key> <pad>
+  The lookup ops first run stun_message_validate_buffer_length on the packet with the padding mode of the
+  current agent and answer `notvalid` unless it returns the packet's size (the accessors' precondition).
+  A model fault prints `fault oob|assert|ub` (the real code then has no defined behaviour).  Transaction
+  ids come from the op line (the harness replaces stun_make_transid at link time).
 -/
 import Nice.Model.Stun
 import Nice.Drv.Util
